@@ -851,13 +851,22 @@ func (w *World) dests(op *Op) []int {
 // that tensor - its named destination, which it is entitled to change - with a shape that no longer fits its
 // storage (handleReuse reshapes before sanity() refuses). What later operations do with such a tensor says
 // nothing about the properties, so the program stops using it (in every world alike).
-func (w *World) retireFailedDest(op *Op) {
+func (w *World) retireFailedDest(op *Op, panicked bool) {
 	var rs []int
+	switch op.Name {
+	case "DecodeInto":
+		// a decoder that gives up half way leaves its receiver undefined
+		rs = append(rs, op.R)
+	case "Copy", "CopyTo", "RepeatReuse", "SliceInto":
+		if panicked {
+			rs = append(rs, op.R)
+		}
+	}
 	switch op.Mode {
 	case "reuse", "incr", "same-reuse":
-		rs = []int{op.R}
+		rs = append(rs, op.R)
 	case "reuse-incr":
-		rs = []int{op.R, op.R2}
+		rs = append(rs, op.R, op.R2)
 	}
 	for _, r := range rs {
 		if t := w.get(r); t != nil {
@@ -886,7 +895,7 @@ func (w *World) Exec(op *Op) (out Outcome) {
 			default:
 				out = Outcome{St: stPanic}
 				w.lastErr = fmt.Sprint(r)
-				w.retireFailedDest(op)
+				w.retireFailedDest(op, true)
 			}
 		}
 	}()
@@ -895,7 +904,7 @@ func (w *World) Exec(op *Op) (out Outcome) {
 	res, err := w.run(op)
 	if err != nil {
 		w.lastErr = err.Error()
-		w.retireFailedDest(op)
+		w.retireFailedDest(op, false)
 		return Outcome{St: stErr}
 	}
 	h := uint64(fnvOff)
